@@ -14,7 +14,7 @@ for pid, c in sorted(claims['claimed'].items()):
     checks.append({
         "property_id": pid,
         "quick_cmd": f"./bin/govc check {pid} --tier quick",
-        "thorough_cmd": f"./bin/govc check {pid} --tier thorough",
+        "thorough_cmd": f"./tools/thorough.sh {pid}",
         "evidence_file": f"evidence/{pid}.json",
         "replay_cmd_template": "./bin/govc replay {path}",
         "engine": "govc",
